@@ -38,7 +38,7 @@ fn main() {
         "total-gen" => total::gen(&arg(2), &arg(3), num(4, 200)),
         "total-worker" => total::worker(),
         "lib-table" => libtable::run(&arg(2)),
-        "record-chunker" => chunk::record(&arg(2), num(3, 20)),
+        "record-chunker" => chunk::record(&arg(2), num(3, 20), arg(4) != "nopanic"),
         "record-data" => data::record_translate(&arg(2), num(3, 30)),
         "record-hops" => data::record_hops(&arg(2), num(3, 30)),
         "record-detect" => detect::record(&arg(2), num(3, 50)),
